@@ -16,12 +16,19 @@ IsEv(e) == l <= Len(TraceLog) /\ TraceLog[l].e = e /\ l' = l + 1
 o == Line.op
 Ids(lst) == {lst[i][1] : i \in DOMAIN lst}
 IdsR(lst) == {lst[i].id : i \in DOMAIN lst}
+EndAgrees(rec, e) == CASE e.k = 1 -> rec.t = 1 /\ rec.s = e.a /\ rec.c = e.b
+                        [] e.k = 2 -> rec.t = 2 /\ rec.j = e.a
+                        [] OTHER   -> rec.t = 0 /\ (e.a < 0 \/ rec.p = <<e.a * 1024, e.b * 1024>>)
 LiveAgree ==
     IF ~Line.processed THEN TRUE ELSE
     ( /\ Ids(Line.shapes) = {s \in ShapeIds : shp'[s] = "live"}
       /\ \A i \in DOMAIN Line.shapes : LET q == Line.shapes[i] IN <<q[2] \div 1024, q[3] \div 1024, q[4] \div 1024, q[5] \div 1024>> = rect'[q[1]]
       /\ (improving \/ ( /\ IdsR(Line.juncs) = {j \in JuncIds : jn'[j] = "live"}
-                         /\ IdsR(Line.conns) = {c \in ConnIds : cn'[c] = "live"} )) )
+                         /\ IdsR(Line.conns) = {c \in ConnIds : cn'[c] = "live"}
+                         \* every connector end is attached to what the calls so far attached it to (recorded end: t = 0 point, 1 pin
+                         \* of class c on shape s, 2 junction j, 3 nothing)
+                         /\ \A i \in DOMAIN Line.conns : LET cc == Line.conns[i] IN
+                                EndAgrees(cc.src, cend'[cc.id][1]) /\ EndAgrees(cc.dst, cend'[cc.id][2]) )) )
 EndOf(k, a, b) == [k |-> k, a |-> a, b |-> b]
 Act == CASE o[1] = 1  -> NewShape(o[2], <<o[3], o[4], o[5], o[6]>>)
          [] o[1] = 2  -> NewPin(o[2], <<o[3], o[4], o[5], o[7], o[8], o[9], o[6]>>)
